@@ -14,7 +14,7 @@ import (
 
 func init() {
 	checks["C03"] = checkC03
-	explanations["C03"] = "Structural necessary conditions: (1) atomicity (E1): AddVoucher only in the DI SetHMAC arm after both session reads; ReplaceVoucher only in the Done arm after the Done-nonce comparison and the reads of replacement HMAC (absent => credential reuse returns before touching the store), GUID and rvinfo; DI returns a credential only after SetHMAC was answered with DI.Done, TO2 only after the Done2 nonce comparison, and never together with an error. (2) field-source agreement (E2 composite-literal tables): the replacement VoucherHeader the device MACs and the one the owner stores each assign all six fields, taking Version/DeviceInfo/CertChainHash from the current (verified / stored) header and GUID/RvInfo/ManufacturerKey from SetupDevice resp. from the session's replacement GUID, rvinfo and the owner-key helper; the GUID and rvinfo sent in SetupDevice are the very values stored in the session; the header handed to the HMAC computation is the header whose fields fill the returned credential; in DI the stored header is the returned one and is stored after its RvInfo is set. (0) the functions computing / verifying the header HMAC consult a fallible hash's Err() after the last Sum before reporting success, so an unnoticed failed HMAC cannot be bound into credential or voucher. Not decided: equality of encoded bytes on both sides (C11), blob round trip, multi-round histories, crash points inside the store."
+	explanations["C03"] = "Structural necessary conditions: (1) atomicity (E1): AddVoucher only in the DI SetHMAC arm after both session reads; ReplaceVoucher only in the Done arm after the Done-nonce comparison and the reads of replacement HMAC (absent => credential reuse returns before touching the store), GUID and rvinfo; DI returns a credential only after SetHMAC was answered with DI.Done, TO2 only after the Done2 nonce comparison, and never together with an error. (2) field-source agreement (E2 composite-literal tables): the replacement VoucherHeader the device MACs and the one the owner stores each assign all six fields, taking Version/DeviceInfo/CertChainHash from the current (verified / stored) header and GUID/RvInfo/ManufacturerKey from SetupDevice resp. from the session's replacement GUID, rvinfo and the owner-key helper; the GUID and rvinfo sent in SetupDevice are the very values stored in the session; the header handed to the HMAC computation is the header whose fields fill the returned credential; in DI the stored header is the returned one and is stored after its RvInfo is set. (0) the functions computing / verifying the header HMAC consult a fallible hash's Err() after the last Sum before reporting success, so an unnoticed failed HMAC cannot be bound into credential or voucher. Also: Owner2Key of the SetupDevice payload and ManufacturerKey of the replacement header given to ReplaceVoucher are results of the same function (one encoder for the key the device hashes and the key the owner stores). Not decided: equality of encoded bytes on both sides (C11), blob round trip, multi-round histories, crash points inside the store."
 }
 
 // litFields returns, for a struct built in an alloc, field name -> stored value.
@@ -266,6 +266,7 @@ func checkC03(c *Ctx, p *Prog, r *Result) {
 		r.requireAtSites(f, "C03.replace-atomic", sites, []Atom{"msg=70", "done-nonce-eq", "repl-hmac-read", "repl-guid-read", "rvinfo-read", "guid-read"})
 		c03OwnerHeader(p, r, f, sites)
 		c03SetupDeviceValues(p, r, f)
+		c03ReplacementKeyOneEncoder(p, r, f)
 	}
 	if root := get("fdo.DIServer.Respond"); root != nil {
 		f := NewFlow(p, rs, []*ssa.Function{root}, nil)
@@ -716,4 +717,59 @@ func nestedFieldFrom(m *Matcher, lit *ssa.Alloc, field, item string) bool {
 		}
 	}
 	return false
+}
+
+// c03ReplacementKeyOneEncoder — "C03.replacement-key-one-encoder". The device
+// computes the replacement HMAC and the key hash of its new credential over the
+// Owner2Key it received in SetupDevice; the owner stores a replacement header
+// whose ManufacturerKey it builds again in Done. The two agree byte for byte
+// only if both are the result of the same function (same type, encoding and
+// chain selection); two encoders that each look right may differ in encoding.
+func c03ReplacementKeyOneEncoder(p *Prog, r *Result, f *Flow) {
+	rule := "C03.replacement-key-one-encoder"
+	r.rule(rule, "Owner2Key of the SetupDevice payload and ManufacturerKey of the replacement header given to ReplaceVoucher are results of the same function (same result index): the key the device hashed is encoded by the code that encodes the key the owner stores")
+	r.floor(rule, 1)
+	var sent, stored []string
+	var pos string
+	for _, fn := range f.Order {
+		if !f.Region[fn] || fn.Blocks == nil {
+			continue
+		}
+		m := f.matcherFor(fn)
+		for _, b := range fn.Blocks {
+			for _, in := range b.Instrs {
+				al, ok := in.(*ssa.Alloc)
+				if !ok {
+					continue
+				}
+				fl := litFields(al)
+				if k, ok := fl["Owner2Key"]; ok {
+					if _, g := fl["RendezvousInfo"]; g {
+						sent = append(sent, rootCall(m, k)+" (payload literal in "+p.FuncName(fn)+")")
+					}
+				}
+			}
+		}
+	}
+	for _, call := range f.CallSites(func(cal Callee, _ ssa.CallInstruction) bool {
+		return cal.Name == "fdo.OwnerVoucherPersistentState.ReplaceVoucher"
+	}) {
+		fn := call.Parent()
+		pos = p.instrPos(call)
+		for _, al := range literalsIn(p, fn, "fdo.VoucherHeader") {
+			m := p.matcher(al.Parent())
+			if k, ok := litFields(al)["ManufacturerKey"]; ok {
+				stored = append(stored, rootCall(m, k)+" (header literal in "+p.FuncName(al.Parent())+")")
+			}
+		}
+	}
+	root := func(s string) string {
+		if i := strings.Index(s, " ("); i >= 0 {
+			return s[:i]
+		}
+		return s
+	}
+	ok := len(sent) == 1 && len(stored) == 1 && root(sent[0]) != "" && root(sent[0]) == root(stored[0])
+	r.table(p, rule, "SetupDevice.Owner2Key vs replacement header ManufacturerKey", pos, ok,
+		fmt.Sprintf("sent: %s; stored: %s", strings.Join(sent, ", "), strings.Join(stored, ", ")))
 }
